@@ -259,7 +259,7 @@ func c11ViewOf(pod *corev1.Pod, table c11Table) *c11View {
 	if m, ok := table[c11MetaKey(meta)]; ok && m.count > 0 {
 		v.hasMetric, v.used = true, int64(m.last)
 	}
-	for _, c := range pod.Spec.Containers {
+	for _, c := range c11Running(pod) {
 		for r, q := range c.Resources.Requests {
 			v.req[r] += q.Value()
 		}
@@ -281,6 +281,18 @@ func (v *c11View) truth(t qosmanagerUtil.ReleaseTargetType, r corev1.ResourceNam
 // request of the pod in the memory resource of its class (exactly one of the three is non-zero by construction)
 func (v *c11View) memRequest() int64 {
 	return v.req[apiext.BatchMemory] + v.req[apiext.MidMemory] + v.req[corev1.ResourceMemory]
+}
+
+// c11Running: the containers that keep running (and holding their requests) while the pod runs: the regular
+// containers and the sidecar init containers (restartPolicy Always). A plain init container has completed.
+func c11Running(pod *corev1.Pod) []corev1.Container {
+	out := append([]corev1.Container{}, pod.Spec.Containers...)
+	for _, ic := range pod.Spec.InitContainers {
+		if ic.RestartPolicy != nil && *ic.RestartPolicy == corev1.ContainerRestartPolicyAlways {
+			out = append(out, ic)
+		}
+	}
+	return out
 }
 
 type c11TaskView struct {
@@ -386,8 +398,12 @@ func c11Check(views map[types.UID]*c11View, tasks map[string]*c11TaskView, thr *
 		}
 		t := tasks[feature]
 		out.trace = append(out.trace, fmt.Sprintf("Evict(%s,%s)=%v", feature, p.name, ev.result))
+		if t == nil && c11KnownFeature[feature] {
+			add("C11/minimality/evicted-without-computed-target/"+feature, "%s attempted %s although koordinator computes no release target for this strategy on this input (switched off, invalid configuration, or no pressure)", feature, p.name)
+			continue
+		}
 		if t == nil {
-			add("C11/harness/unattributable-evict-call", "cannot attribute Evict(%s) with message %q to an enabled feature with a target", p.name, ev.message)
+			add("C11/harness/unattributable-evict-call", "cannot attribute Evict(%s) with message %q to a strategy", p.name, ev.message)
 			continue
 		}
 		out.byFeature[feature]++
@@ -551,6 +567,8 @@ func c11Ptr(p *int32) string {
 // ---------------------------------------------------------------------------------------------
 // generation
 
+var c11KnownFeature = map[string]bool{"BEMemoryEvict": true, "MemoryAllocatableEvict": true, "MemoryEvict": true, "BECPUEvict": true, "CPUAllocatableEvict": true, "CPUEvict": true}
+
 var c11Features = []featuregate.Feature{features.BEMemoryEvict, features.MemoryAllocatableEvict, features.MemoryEvict}
 
 // Legal extremes of the three ordering keys. The eviction-priority annotation and the koordinator.sh/priority
@@ -586,7 +604,10 @@ func c11OrderKeys(feature string, v *c11View) []int64 {
 // that the biased key decides the order. Pods of a biased case are made candidates of every strategy
 // (eviction enabled, no policy annotation, running, sample present) with high probability.
 func c11GenPod(r *kit.Rand, i int, mode int, sharedPrio int32) (*corev1.Pod, *float64) {
-	name := fmt.Sprintf("p%d", i)
+	name, ns := fmt.Sprintf("p%d", i), "default"
+	if r.Pct(20) {
+		ns = "team-a"
+	}
 	labels, ann := map[string]string{}, map[string]string{}
 	var prio int32
 	var cpuRes, memRes corev1.ResourceName = corev1.ResourceCPU, corev1.ResourceMemory
@@ -622,7 +643,7 @@ func c11GenPod(r *kit.Rand, i int, mode int, sharedPrio int32) (*corev1.Pod, *fl
 		}
 	case 3: // koord-prod
 		prio = pickIn(apiext.PriorityProdValueMin, apiext.PriorityProdValueMax)
-		labels[apiext.LabelPodQoS] = string(kit.Pick(r, []apiext.QoSClass{apiext.QoSLS, apiext.QoSLSR}))
+		labels[apiext.LabelPodQoS] = string(kit.Pick(r, []apiext.QoSClass{apiext.QoSLS, apiext.QoSLS, apiext.QoSLSR, apiext.QoSLSR, apiext.QoSLSE, apiext.QoSSystem}))
 	default: // priority outside the koordinator bands (custom priority class or none)
 		if !forced {
 			prio = kit.Pick(r, []int32{0, 100, 100, 120, 1000, 2999, 4000, 6500})
@@ -634,6 +655,20 @@ func c11GenPod(r *kit.Rand, i int, mode int, sharedPrio int32) (*corev1.Pod, *fl
 			cpuRes, memRes = apiext.BatchCPU, apiext.BatchMemory
 		case 1:
 			labels[apiext.LabelPodQoS] = string(apiext.QoSLS)
+		}
+	}
+	if r.Pct(12) {
+		// koordinator.sh/priority-class (for pods that already run with another priority): always the class
+		// whose resources the pod requests
+		switch {
+		case cpuRes == apiext.BatchCPU:
+			labels[apiext.LabelPodPriorityClass] = string(apiext.PriorityBatch)
+		case cpuRes == apiext.MidCPU:
+			labels[apiext.LabelPodPriorityClass] = string(apiext.PriorityMid)
+		case branch == 2:
+			labels[apiext.LabelPodPriorityClass] = string(apiext.PriorityFree)
+		case branch == 3:
+			labels[apiext.LabelPodPriorityClass] = string(apiext.PriorityProd)
 		}
 	}
 	if r.Pct(70) || (mode > 0 && r.Pct(85)) {
@@ -678,8 +713,14 @@ func c11GenPod(r *kit.Rand, i int, mode int, sharedPrio int32) (*corev1.Pod, *fl
 		}
 	}
 	var containers []corev1.Container
-	nc := 1 + r.Intn(2)
-	for j := 0; j < nc; j++ {
+	nc := 1 + r.Weighted(50, 35, 10, 5)
+	extended := cpuRes != corev1.ResourceCPU
+	nInit := 0
+	if extended && r.Pct(20) {
+		nInit = 1 + r.Intn(2)
+	}
+	var initContainers []corev1.Container
+	for j := 0; j < nc+nInit; j++ {
 		req := corev1.ResourceList{}
 		if !r.Pct(15) {
 			v := kit.Pick(r, []int64{1, 1 << 20, 512 << 20, 1 << 30, 2<<30 - 1, 4 << 30, 16 << 30, r.Int63n(8<<30) + 1})
@@ -693,17 +734,32 @@ func c11GenPod(r *kit.Rand, i int, mode int, sharedPrio int32) (*corev1.Pod, *fl
 				req[cpuRes] = *resource.NewQuantity(v, resource.DecimalSI)
 			}
 		}
+		if j >= nc {
+			// init containers only for pods requesting batch/mid resources (for native resources the effective
+			// pod request follows the max(init, sum) formula, which the statement does not spell out)
+			ic := corev1.Container{Name: fmt.Sprintf("i%d", j), Resources: corev1.ResourceRequirements{Requests: req}}
+			if r.Pct(60) {
+				ic.RestartPolicy = ptr.To(corev1.ContainerRestartPolicyAlways) // sidecar
+			}
+			initContainers = append(initContainers, ic)
+			continue
+		}
 		containers = append(containers, corev1.Container{Name: fmt.Sprintf("c%d", j), Resources: corev1.ResourceRequirements{Requests: req}})
 	}
-	phase := []corev1.PodPhase{corev1.PodRunning, corev1.PodPending, corev1.PodSucceeded, corev1.PodFailed}[r.Weighted(88, 5, 4, 3)]
+	phase := []corev1.PodPhase{corev1.PodRunning, corev1.PodPending, corev1.PodSucceeded, corev1.PodFailed, corev1.PodUnknown}[r.Weighted(86, 5, 4, 3, 2)]
 	if mode > 0 && r.Pct(90) {
 		phase = corev1.PodRunning
 	}
 	pod := &corev1.Pod{
 		TypeMeta:   metav1.TypeMeta{Kind: "Pod"},
-		ObjectMeta: metav1.ObjectMeta{Name: name, Namespace: "default", UID: types.UID("uid-" + name), Labels: labels, Annotations: ann},
-		Spec:       corev1.PodSpec{Priority: ptr.To(prio), Containers: containers},
+		ObjectMeta: metav1.ObjectMeta{Name: name, Namespace: ns, UID: types.UID(fmt.Sprintf("uid-%d", i)), Labels: labels, Annotations: ann},
+		Spec:       corev1.PodSpec{Priority: ptr.To(prio), Containers: containers, InitContainers: initContainers},
 		Status:     corev1.PodStatus{Phase: phase},
+	}
+	if mode == 0 && r.Pct(4) {
+		// a pod that somebody else is already deleting (not a victim of the evictor)
+		pod.DeletionTimestamp = &metav1.Time{Time: time.Unix(1690000000, 0)}
+		pod.DeletionGracePeriodSeconds = ptr.To(int64(30))
 	}
 	var used *float64
 	if r.Pct(85) || (mode > 0 && r.Pct(80)) {
@@ -730,18 +786,21 @@ func c11GenCase(r *kit.Rand) *c11Case {
 		cs.extreme = 1 + r.Intn(3)
 		sharedPrio = kit.Pick(r, []int32{5500, 100, -1 << 31, -1 << 31, -1, -1, 1})
 	}
-	n := r.Range(2, 12)
+	n := []int{0, 1, r.Range(2, 12), r.Range(13, 24), 40}[r.Weighted(2, 3, 86, 7, 2)]
 	var sumUsed float64
 	reqSum := map[corev1.ResourceName]int64{}
 	for i := 0; i < n; i++ {
 		pod, used := c11GenPod(r, i, cs.extreme, sharedPrio)
+		if i > 0 && pod.Namespace != cs.pods[i-1].Namespace && cs.pods[i-1].Name == fmt.Sprintf("p%d", i-1) && r.Pct(40) {
+			pod.Name = cs.pods[i-1].Name // same name in another namespace (the UID stays distinct)
+		}
 		cs.pods = append(cs.pods, pod)
 		if used != nil {
 			meta, _ := metriccache.PodMemUsageMetric.BuildQueryMeta(metriccache.MetricPropertiesFunc.Pod(string(pod.UID)))
 			cs.table[c11MetaKey(meta)] = c11Metric{avg: *used, last: *used, count: 1}
 			sumUsed += *used
 		}
-		for _, c := range pod.Spec.Containers {
+		for _, c := range c11Running(pod) {
 			for rn, q := range c.Resources.Requests {
 				reqSum[rn] += q.Value()
 			}
@@ -754,7 +813,7 @@ func c11GenCase(r *kit.Rand) *c11Case {
 		need = v
 	}
 	var capacity int64
-	for _, v := range []int64{16 << 30, 64 << 30, 100_000_000_000, 128 << 30, 1 << 40} {
+	for _, v := range []int64{4 << 30, 8 << 30, 16 << 30, 64 << 30, 100_000_000_000, 128 << 30, 1 << 40} {
 		if v >= need && (capacity == 0 || r.Pct(35)) {
 			capacity = v
 		}
@@ -782,13 +841,19 @@ func c11GenCase(r *kit.Rand) *c11Case {
 		Capacity:    corev1.ResourceList{corev1.ResourceCPU: resource.MustParse("64"), corev1.ResourceMemory: *resource.NewQuantity(capacity, resource.BinarySI)},
 		Allocatable: alloc,
 	}}
+	if r.Pct(3) {
+		cs.node.Status.Allocatable = nil // node status without allocatable
+	}
 	thrPct := int64(r.Range(30, 92))
+	if r.Pct(12) {
+		thrPct = int64(kit.Pick(r, []int{1, 2, 5, 29, 93, 99, 100}))
+	}
 	cs.thr = &slov1alpha1.ResourceThresholdStrategy{
 		Enable:                                 ptr.To(true),
 		MemoryEvictThresholdPercent:            ptr.To(thrPct),
-		EvictEnabledPriorityThreshold:          ptr.To(kit.Pick(r, []int32{100, 3999, 5500, 5999, 7999, 9999})),
-		MemoryAllocatableEvictThresholdPercent: ptr.To(int64(kit.Pick(r, []int{0, 40, 50, 80, 90, 100, 110}))),
-		AllocatableEvictPriorityThreshold:      ptr.To(kit.Pick(r, []int32{120, 4999, 5000, 5500, 5999, 7500, 7999})),
+		EvictEnabledPriorityThreshold:          ptr.To(kit.Pick(r, []int32{-1, 0, 100, 100, 3999, 3999, 5500, 5500, 5999, 5999, 7999, 7999, 9999, 9999})),
+		MemoryAllocatableEvictThresholdPercent: ptr.To(int64(kit.Pick(r, []int{0, 1, 40, 40, 50, 50, 80, 80, 90, 90, 100, 100, 110, 110, 200}))),
+		AllocatableEvictPriorityThreshold:      ptr.To(kit.Pick(r, []int32{-1, 0, 120, 120, 4999, 4999, 5000, 5000, 5500, 5500, 5999, 5999, 7500, 7500, 7999, 7999})),
 	}
 	if cs.extreme > 0 {
 		// keep the pods with extreme keys eligible: any spec.priority passes the used-threshold strategies
@@ -829,6 +894,23 @@ func c11GenCase(r *kit.Rand) *c11Case {
 	if r.Pct(95) {
 		cs.table[cs.nodeKey] = c11Metric{avg: nodeUsed, last: nodeUsed, count: 1}
 	}
+	switch r.Weighted(92, 3, 2, 3) {
+	case 1:
+		cs.thr.Enable = ptr.To(false) // the NodeSLO switches the strategies off
+	case 2:
+		cs.thr.Enable = nil
+	case 3:
+		// a configuration the package's validators reject
+		switch r.Intn(3) {
+		case 0:
+			cs.thr.MemoryEvictThresholdPercent = nil
+		case 1:
+			cs.thr.MemoryEvictLowerPercent = ptr.To(thrPct + int64(r.Intn(3)))
+		default:
+			cs.thr.EvictEnabledPriorityThreshold = nil
+			cs.thr.AllocatableEvictPriorityThreshold = nil
+		}
+	}
 	for len(cs.enabled) == 0 {
 		for _, f := range c11Features {
 			if r.Pct(55) {
@@ -858,7 +940,7 @@ func TestVerifC11MemoryEvict(t *testing.T) {
 		metriccache.DefaultAggregateResultFactory = oldFactory
 		_ = features.DefaultMutableKoordletFeatureGate.SetFromMap(oldGates)
 	}()
-	kit.Run(t, kit.Config{Property: "C11", Unit: "mem-e2e", Quick: 12000, Thorough: 800000,
+	kit.Run(t, kit.Config{Property: "C11", Unit: "mem-e2e", Quick: 20000, Thorough: 800000,
 		Rule: "memoryEvict() end to end: 2-12 pods (koord-batch/mid/free/prod and out-of-band priorities, QoS, eviction-enabled label, eviction-priority and eviction-policy annotations incl. malformed, sub-priority label, phases, 1-2 containers, memory sample present/absent/zero), node capacity and batch/mid-memory allocatable around the pods' requests, thresholds 30-92% with node usage below/at/above the line, every non-empty subset of {BEMemoryEvict, MemoryAllocatableEvict, MemoryEvict}; executor script none / all fail / first only / every k-th / random, 0-100% already evicted; distinct = (features enabled, features with a target, attempts class, failures, already-evicted counted, met/unmet); non-trivial = at least one Evict attempt",
 	}, func(c *kit.Case) {
 		r := c.R
@@ -914,11 +996,32 @@ func TestVerifC11MemoryEvict(t *testing.T) {
 			c.Count("cases_boundary_biased_keys", 1)
 		}
 		views := map[types.UID]*c11View{}
+		switch {
+		case len(cs.pods) <= 1:
+			c.Count("dim_cases_with_0_or_1_pods", 1)
+		case len(cs.pods) > 12:
+			c.Count("dim_cases_with_more_than_12_pods", 1)
+		}
+		if cs.node.Status.Allocatable == nil {
+			c.Count("dim_cases_node_without_allocatable", 1)
+		}
 		for _, p := range cs.pods {
 			if r.Pct(pq) {
 				ex.pending[p.UID] = true
 			}
 			views[p.UID] = c11ViewOf(p, cs.table)
+			if len(p.Spec.InitContainers) > 0 {
+				c.Count("dim_pods_with_init_or_sidecar_containers", 1)
+			}
+			if _, ok := p.Labels[apiext.LabelPodPriorityClass]; ok {
+				c.Count("dim_pods_with_priority_class_label", 1)
+			}
+			if p.DeletionTimestamp != nil {
+				c.Count("dim_pods_deleted_by_somebody_else", 1)
+			}
+			if p.Name != fmt.Sprintf("p%s", strings.TrimPrefix(string(p.UID), "uid-")) {
+				c.Count("dim_pods_sharing_a_name_across_namespaces", 1)
+			}
 			if views[p.UID].evAnnOutOfRange {
 				c.Count("annotation_out_of_range", 1)
 			}
@@ -926,7 +1029,7 @@ func TestVerifC11MemoryEvict(t *testing.T) {
 				c.Count("annotation_unparsable", 1)
 			}
 		}
-		m := &memoryEvictor{evictInterval: time.Second, evictCoolingInterval: 4 * time.Second, metricCollectInterval: time.Second,
+		m := &memoryEvictor{evictInterval: time.Second, evictCoolingInterval: 4 * time.Second, metricCollectInterval: kit.Pick(r, []time.Duration{time.Second, time.Second, time.Second, 10 * time.Second, time.Minute}),
 			statesInformer: inf, metricCache: &c11Cache{}, evictExecutor: ex}
 
 		thrJSON, _ := json.Marshal(cs.thr)
@@ -947,7 +1050,11 @@ func TestVerifC11MemoryEvict(t *testing.T) {
 			tasks := map[string]*c11TaskView{}
 			// the release targets koordinator computes for this input (same call memoryEvict makes)
 			for _, f := range cs.enabled {
-				task, err := m.buildEvictTask(f, inf.slo, cs.node)
+				if cs.thr.Enable == nil || !*cs.thr.Enable {
+				c.Count("feature_switched_off_by_nodeslo", 1)
+				continue
+			}
+			task, err := m.buildEvictTask(f, inf.slo, cs.node)
 				if err != nil || task == nil {
 					c.Count("feature_without_target", 1)
 					continue
